@@ -35,10 +35,11 @@ Proof.
 Qed.
 Print Assumptions C06_own_thread.
 
-(* processing a flush event flushes every active sink after everything written so far, writes nothing,
+(* processing a flush event flushes every active sink after everything written so far (a sink whose flush throws
+   is reported and does not keep the others from being flushed: flush_tokens is per sink), writes nothing,
    and (process_min) the flag is stored only after that and after the event left the transit buffer *)
 Theorem C06_flush_event_flushes_sinks : forall K s e, ekind e = KFlush ->
-  obs (process_event K s e) = obs s ++ flat_map (fun k => [O_FLUSH; N.of_nat k]) (active_sinks s (nloggers s) 0 []).
+  obs (process_event K s e) = obs s ++ flat_map (flush_tokens s) (active_sinks s (nloggers s) 0 []).
 Proof. exact flush_event_flushes. Qed.
 Print Assumptions C06_flush_event_flushes_sinks.
 
